@@ -7,13 +7,13 @@ props = [json.loads(l)['id'] for l in open(os.path.join(V, 'properties.jsonl'))]
 E2 = 'mirsym (bounded symbolic execution of rustc MIR, z3)'
 BT = 'bounded symbolic execution of the MIR of the real backup() (GC-lock check, basis stitch, MergeTrees, Band::create, BackupWriter::{copy_entry,copy_file,copy_dir,copy_symlink,flush_group,finish}, FileCombiner, store_file_content, read_with_retries, BlockDir::store_or_deduplicate, IndexWriter::finish_hunk, Band::close) over a symbolic transport store and a modelled source side, z3 deciding file sizes vs max_block_size / small_file_cap / max_entries_per_hunk'
 CLAIMS = {
- 'C11': dict(engine='mirsym', technique='bounded symbolic execution of the MIR of Apath::{is_valid,cmp,append} with z3; oracle = independent z3 statement of the documented order; counterexamples replayed natively',
-   text='For every pair (triple) of paths of up to N code points over the whole Unicode scalar range the solver shows Apath::cmp equals the documented total order, is antisymmetric/transitive, Equal only for identical strings, and is_valid equals the documented rule; bounded-holds within N (8 quick / 10-12 thorough), nothing claimed beyond.',
-   note='Trusted: rustc MIR printer, mirsym parser/interpreter and its str/Option models (differentially validated against the real crate on the repository test vectors + seeded vectors each run), z3. Byte-wise str comparison modelled as code-point order. The source-walk and written-index ordering clauses are covered by the C13 writer harness, not here.',
+ 'C11': dict(engine='mirsym', technique='bounded symbolic execution of the MIR of Apath::{is_valid,cmp,append} and of source::Iter::{new,next,visit_next_directory} (over a directory model with symbolic names) with z3; oracle = independent z3 statement of the documented order; counterexamples replayed natively',
+   text='For every pair (triple) of paths of up to N code points over the whole Unicode scalar range the solver shows Apath::cmp equals the documented total order, is antisymmetric/transitive, Equal only for identical strings, and is_valid equals the documented rule; bounded-holds within N (8 quick / 10-12 thorough), nothing claimed beyond. Walk clause: for directory trees of fixed shape (depth <= 3 quick / 4 thorough, <= 8 entries) whose names are symbolic strings of 1-2 code points handed over by read_dir in arbitrary order, the real walk emits every entry exactly once in strictly increasing documented order.',
+   note='Trusted: rustc MIR printer, mirsym parser/interpreter and its str/Option models (differentially validated against the real crate on the repository test vectors + seeded vectors each run), z3. Byte-wise str comparison modelled as code-point order. read_dir / DirEntry / metadata are served by a directory model and entry_from_fs_metadata is stubbed (kinds from the model). The written-index ordering clause is covered by the C13 writer harness and the listing clause by C08, not here.',
    design='§3 C11'),
  'C12': dict(engine='mirsym', technique='bounded symbolic execution of the MIR of Apath::is_prefix_of with z3 against a whole-component ancestry oracle; native replay',
    text='For every pair of valid paths of up to N code points (any scalar value) is_prefix_of equals "same path, root, or ancestor by whole components"; bounded-holds within N (8 quick / 10 thorough).',
-   note='Trusted: MIR printer, mirsym + str models (differentially validated each run), Store/JSON models, z3. Second obligation: Stitch::next with a subtree filter over two-band stitched versions with two-level symbolic paths equals the whole-component rule. restore --only over the syscall model is not yet covered.',
+   note='Trusted: MIR printer, mirsym + str models (differentially validated each run), Store/JSON models, z3. Second obligation: Stitch::next with a subtree filter over two-band stitched versions with two-level symbolic paths equals the whole-component rule. Third: restore with only_subtree over the file-system model restores exactly the entries under the subtree (names extending one another, non-ASCII).',
    design='§3 C12'),
  'C08': dict(engine='mirsym', technique='bounded symbolic execution of the MIR of Stitch::next / IndexHunkIter::next / Band::open / previous_existing_band over a symbolic archive store with z3, against an independently written stitching rule; native replay on an archive written directly in the documented format',
    text='For every arrangement of up to 3 (quick) / 4 (thorough) bands, each absent / headless / headless-with-tail / open / closed, each with one of 7-8 hunk layouts (empty hunk, gap, up to 2-3 hunks), and every relative order of the symbolic entry paths across bands, the listing produced by the real state machine equals the stitching rule, is strictly increasing, reports no spurious error and terminates; bounded-holds within those shapes.',
@@ -42,7 +42,7 @@ CLAIMS = {
    text='Kani shows for every mtime in +-3e10 s with any nanosecond value that capture -> index fields -> IndexEntry::mtime -> FileTime is the identity without panic (a reachability twin guards vacuity). mirsym shows that restore reproduces kind, bytes, link target, mtime, all 12 mode bits and owner for files, an empty file, a nested file, directories and a symlink with symbolic attributes (chown permitted or not), and that a fault-free backup of the listed shapes records the source metadata and addresses resolving to exactly each file\'s bytes for every relation between sizes and the three options.',
    note='Trusted: Kani/CBMC; MIR printer, mirsym + models, FS model (follow/no-follow and chown-clears-setuid rules from the man pages), store/source models, z3. The real directory walk, non-UTF-8 names and trees beyond the bound are outside; backup->restore is composed through the archive entry, not run end to end symbolically.', design='§3 C01'),
  'C16': dict(engine='mirsym', technique='bounded symbolic execution of the MIR of restore() and its helpers (including the real owner::unix::set_owner) over a file-system model with sentinels outside the destination; symlink target, owner presence and mode are solver variables; native replay into a sandbox',
-   text='For one-version archives and for an interrupted version stitched over a directory that became a symlink, with the link target chosen by the solver from upward, absolute, to-a-directory, to-a-file, "." and "..": no modelled system call creates, removes or changes (content, mode, owner, mtime) anything outside the destination; is_valid(p) implies p[1..] is relative without ".."; a non-empty destination without overwrite is refused before any mutating call.',
+   text='For one-version archives and for an interrupted version stitched over a directory (with nested children two levels deep, the link target holding a same-named real subdirectory) that became a symlink, with the link target chosen by the solver from upward, absolute, to-a-directory, to-a-file, "." and "..": no modelled system call creates, removes or changes (content, mode, owner, mtime) anything outside the destination; is_valid(p) implies p[1..] is relative without ".."; a non-empty destination without overwrite is refused before any mutating call.',
    note='Trusted: as C01 for the FS model. Pre-existing hostile symlinks with overwrite, and the kernel\'s real follow semantics, are outside.', design='§3 C16'),
  'C18': dict(engine='mirsym', technique='bounded symbolic execution of the MIR of diff(), Diff::next, MergeTrees::next, EntryChange::diff_metadata, EntryMetadata::from and of backup() with a change callback, against an independently written classification; native replay on a raw archive + live tree',
    text='For each presence pattern of up to three paths (stored only / live only / both) with kind chosen by the solver on each side and size, mtime, mode symbolic, stored owner present or absent, two link targets: diff (with and without include_unchanged) and the next backup\'s callback report exactly added, removed and changed paths with the right classification.',
@@ -51,7 +51,7 @@ CLAIMS = {
    text='Damage side: for a one-version and a two-version history (newer band closed or open), every stored file deleted, emptied, made undecodable or (blocks) altered-but-decodable: whenever some version no longer lists/restores as before, full validation reports an error, and quick validation does unless only block contents changed. Healthy side: full and quick validation are silent on archives written by fault-free backups (one or two versions) and by backups interrupted after their header at every crash point.',
    note='Trusted: as C03; altered block bytes are modelled as "decodes to other content", the real Snappy/BLAKE2 code is not executed. Removal of a BANDTAIL, and deletion of a hunk of a band that has no tail (identical to an earlier interruption), are legal states and excluded.', design='§3 C09'),
  'C10': dict(engine='kani+mirsym', category='fault_enumeration', technique='bounded symbolic execution of the MIR of restore / list (Stitch) / validate / backup over an archive in which one index entry has solver-chosen decoded field values, or one stored file has solver-chosen damage; Kani kernel for the admitted mtime range',
-   text='Decoded-field layer: with kind, mtime (any i64), nanos (any u32), target presence, an address with any start/len into a present or missing block, odd apaths and an unparseable band version, none of restore, list, validate, backup panics, and entries are not dropped without an error being reported. Containment layer: for one- and two-version histories with any single file deleted / emptied / garbage / altered, restore of every version does not panic, files whose hunk and blocks are untouched are restored exactly, lost or altered files are reported, and after deletion or truncation a new backup completes and is exact. Kani: every (mtime, nanos) admitted by IndexEntry::check() is safe for IndexEntry::mtime/ToFileTime.',
+   text='Decoded-field layer: with kind, mtime (any i64), nanos (any u32), target presence, an address with any start/len into a present or missing block, odd apaths and an unparseable band version, none of restore, list, validate, backup panics, and entries are not dropped without an error being reported. Containment layer: for one- and two-version histories and a history with a file stored in two blocks, with any single file deleted / emptied / garbage / altered, restore of every version does not panic, files whose hunk and blocks are untouched are restored exactly, lost or altered files are reported, and after deletion or truncation a new backup completes and is exact. Kani: every (mtime, nanos) admitted by IndexEntry::check() is safe for IndexEntry::mtime/ToFileTime.',
    note='Trusted: as C01/C03. Third-party decoders (snap, serde_json, hex, semver) are not executed: their robustness and hangs are outside; a band whose head is gone is not a version, what other versions stitched through it is outside.', design='§3 C10'),
  'C02': dict(engine='mirsym', technique=BT + ', of Archive::resolve_band_id / last_complete_band / last_band_id / list_band_ids, and of delete_bands, over the store model; the history claim is decomposed into per-operation preservation steps (C03/C04/C05/C07/C08/C13) plus the reuse decision and version selection decided here by z3 over symbolic mtimes, sizes and band-id sets; one bounded multi-step history explored in addition; native replay',
    text='Reuse step: for a basis entry and a source entry of the same file with solver-chosen (seconds, nanoseconds) mtimes and sizes, a file whose content changed (with a new mtime or size) is never recorded with the basis addresses, and an unchanged file is. Selection: for band-id sets drawn from {0,3,9998,9999,10000,100000} (up to 3 ids), each band open or closed, LatestClosed is the newest closed band and Latest the newest. History: backup(T1); backup(T2: one file rewritten, one added whose content exists in T1 under another name); delete the first version; backup(T2) again, with symbolic sizes/options: every completed, undeleted version resolves to its own snapshot after every step. Arbitrary histories are covered only as the composition of those per-operation steps, not searched.',
